@@ -266,13 +266,15 @@ PROPS["C03"] = dict(
          "histories of 1..4 earlier sessions then a probe; each session's transcript (per step) and events (all "
          "fields but volatile ones) compared with the same session alone on a freshly built service; tftp: every "
          "interleaving of two clients' upload datagrams, clients sharing a source port; ldap: every (sampled) "
-         "interleaving of two connections' bind/modify sequences - these two also through the Lean session model; "
+         "interleaving of two connections' bind/modify sequences; ftp: (sampled) interleavings of login / CWD / CDUP / PWD "
+         "sequences - these three also through the Lean session models; "
          "non-trivial = more than one session; distinct = distinct case line",
     trusted=COMMON_TB + ["verif hook server/verif_hooks.go (VerifNew, VerifHandle)",
                          "step-driven in-memory connections (request/response granularity); goroutine interleavings "
                          "inside one step are the Go scheduler's and are not enumerated",
-                         "modelled, not verified: the session steps of the stream services other than ldap's bind state "
-                         "(their isolation is decided by the oracle runs, the theorem covers the keyed-table shape)"],
+                         "modelled, not verified: the session steps of the stream services other than ldap's bind state and ftp's "
+                         "login/working-directory state (their isolation is decided by the oracle runs, the theorem covers "
+                         "the keyed-table shape)"],
     assumptions=["the ftp filesystem content and the per-IP rate limiters are shared by design (configuration-level state)"],
 )
 
@@ -390,7 +392,7 @@ MANIFEST_TEXT = {
              "touch only their own local state and their own key's slot, under every schedule (any number of sessions, any "
              "interleaving at step granularity, any history before) a session whose key no other session has sees exactly "
              "what it sees alone on a fresh service (induction over the schedule); the tftp upload table (keyed by client "
-             "address) and the ldap per-connection bind state are instances; counterexample theorems record the two defect "
+             "address), the ldap per-connection bind state and the ftp per-session login/working-directory state are instances; counterexample theorems record the two defect "
              "shapes (one slot for everybody: ldap as it was; a key two clients share). Tied to the real services by "
              "deterministic step-level interleavings of scripted sessions through the real dispatcher, each session's "
              "transcript and events compared with its solo run on a freshly built service.",
